@@ -1522,6 +1522,14 @@ impl JsObject {
 
     /// Get a property, searching the prototype chain
     pub fn get_property(&self, key: &PropertyKey) -> Option<JsValue> {
+        // The characters of a String wrapper are own index properties
+        if let (ExoticObject::StringObj(text), PropertyKey::Index(idx)) = (&self.exotic, key)
+            && let Some(ch) = text.as_str().chars().nth(*idx as usize)
+        {
+            let mut buf = [0u8; 4];
+            return Some(JsValue::String(JsString::from(&*ch.encode_utf8(&mut buf))));
+        }
+
         // For arrays, handle index access and length from elements Vec
         if let ExoticObject::Array { ref elements } = self.exotic {
             match key {
@@ -1929,6 +1937,12 @@ impl JsObject {
 
     /// Check if object has own property
     pub fn has_own_property(&self, key: &PropertyKey) -> bool {
+        // the characters of a String wrapper are own index properties
+        if let (ExoticObject::StringObj(text), PropertyKey::Index(idx)) = (&self.exotic, key)
+            && (*idx as usize) < text.as_str().chars().count()
+        {
+            return true;
+        }
         self.properties.contains_key(key)
     }
 
